@@ -420,9 +420,11 @@ impl Variable {
             Comparator::Equal => Some(*self == *value),
             Comparator::NotEqual => Some(*self != *value),
             Comparator::LessThan => Some(*self < *value),
-            Comparator::LessThanEqual => Some(*self <= *value),
+            // `==` on numbers is tolerant (see float_eq), so `<=` and `>=` are defined
+            // through it to keep `a <= b` equivalent to `a < b || a == b`.
+            Comparator::LessThanEqual => Some(*self < *value || *self == *value),
             Comparator::GreaterThan => Some(*self > *value),
-            Comparator::GreaterThanEqual => Some(*self >= *value),
+            Comparator::GreaterThanEqual => Some(*self > *value || *self == *value),
         }
     }
 
